@@ -1,13 +1,18 @@
 #!/bin/bash
-# usage: tools/try_mutant.sh <patch.diff> <Cxx> [Cyy ...]   -- applies the patch to /repo, runs quick checks, reverts
+# usage: tools/try_mutant.sh <ABSOLUTE patch.diff> <Cxx> [Cyy ...]
+# Applies the patch to a scratch worktree of /repo's HEAD (never to /repo itself), runs the checks against it with
+# evidence and replay files redirected to a scratch directory, and removes both afterwards.
 set -u
 patch="$1"; shift
-cd /verif
-if ! git -C /repo diff --quiet; then echo "REPO DIRTY - abort"; exit 3; fi
-git -C /repo apply "$patch" || { echo "patch does not apply"; exit 3; }
-trap 'git -C /repo checkout -- . ' EXIT
+cd "$(dirname "$0")/.."
+wt=$(mktemp -d /tmp/mutwt.XXXXXX); out=$(mktemp -d /tmp/mutout.XXXXXX)
+rmdir "$wt"
+git -C /repo worktree add --detach "$wt" HEAD -q || exit 3
+trap 'git -C /repo worktree remove --force "$wt" 2>/dev/null; [ -n "${MUT_KEEP:-}" ] || rm -rf "$out"' EXIT
+git -C "$wt" apply "$patch" || { echo "patch does not apply"; exit 3; }
 for c in "$@"; do
   echo "=== $c on $(basename $(dirname $patch))/$(basename $patch)"
-  timeout ${MUT_TIMEOUT:-900} /venv/bin/python run.py $c --tier ${MUT_TIER:-quick} 2>&1 | grep -E "VIOLATION|KNOWN-FINDING|HARNESS|tier=|signature=" | head -${MUT_LINES:-8}
+  VERIF_REPO="$wt" VERIF_OUT="$out" timeout ${MUT_TIMEOUT:-900} /venv/bin/python run.py $c --tier ${MUT_TIER:-quick} 2>&1 | grep -E "VIOLATION|KNOWN-FINDING|HARNESS|tier=|signature=" | head -${MUT_LINES:-8}
   echo "exit=${PIPESTATUS[0]}"
 done
+[ -n "${MUT_KEEP:-}" ] && echo "outputs kept in $out"
